@@ -132,7 +132,6 @@ def obligations(tier, seed):
     names = sorted(C16.NAMES)
     for n in names:
         if n.lstrip('-').isdigit(): continue
-        if tier == 'quick' and not n.startswith('OP_') and n not in ('ADD', 'DUP', 'CHECKSIG', 'IF', 'TRUE', 'FALSE', 'CHECKSIGADD', '1NEGATE', 'NOP10'): continue
         add([('op', n)])
     add([('op', 'OP_DUP'), ('op', 'OP_HASH160'), ('hex', 20), ('op', 'OP_EQUALVERIFY'), ('op', 'OP_CHECKSIG')])
     add([('dec', 1, 0), ('dec', 1, 0), ('op', 'OP_ADD')]); add([('hex0x', 1), ('op', 'ADD'), ('dec', 2, 0)])
